@@ -140,7 +140,10 @@ theorem rel_appendWal {p : PState} (h : Rel p) (ops : List (Bytes × Option Byte
     refine ⟨⟨⟨?_, ?_⟩, hle⟩, ?_⟩
     · simp only [walNumbers, List.contains_eq_mem, decide_eq_true_eq, List.mem_map]
       exact ⟨(p.c.wal, bs), mem_of_lookup _ _ _ hl, rfl⟩
-    · exact fun x hx => Or.inl (h.walMax x hx)
+    · intro x hx
+      rcases h.walMax x hx with h1 | h1
+      · exact Or.inl h1
+      · exact Or.inr (by simp [h1])
     · have := maxSeq_le r.entries p.s.lastSeq (fun e he => seq_le_last h.inv e ((hme e).mp he))
       show maxSeq r.entries < p.s.lastSeq + 1
       omega
@@ -167,7 +170,7 @@ theorem rel_appendWal {p : PState} (h : Rel p) (ops : List (Bytes × Option Byte
       · exact h.others x hx
     · intro x hx
       rcases mem_update hx with hx | hx
-      · show x.1 ≤ p.c.wal; omega
+      · left; show x.1 ≤ p.c.wal; omega
       · exact h.walMax x hx
 
 /-- a rotation: the next WAL is created, the memtable (and its WAL) become immutable -/
@@ -209,16 +212,17 @@ theorem rel_createWal {p : PState} (h : Rel p) (w : Nat) (hw : ∀ x ∈ p.d.wal
     · intro x hx
       rcases mem_update hx with hx | hx
       · exact Or.inl hx
-      · rcases h.others x hx with h1 | h1 | h1
+      · rcases h.others x hx with h1 | h1 | h1 | h1
         · exact Or.inr (Or.inl (by rw [h1]))
         · rw [hcn] at h1; cases h1
-        · right; right
+        · right; right; left
           have : p.c.w0 = p.c.wal := by simp [Ctx.w0, hcn]
           show x.1 < (some p.c.wal).getD w
           simp; omega
+        · exact Or.inr (Or.inr (Or.inr h1))
     · intro x hx
       rcases mem_update hx with hx | hx
-      · show x.1 ≤ w; omega
-      · have := hw x hx; show x.1 ≤ w; omega
+      · left; show x.1 ≤ w; omega
+      · have := hw x hx; left; show x.1 ≤ w; omega
 
 end Rain.Persist.Lemmas
